@@ -1400,7 +1400,7 @@ def _SIR_pair_based_initialize_edge_data(G, edgelist, nodelist, XY0, YX0,
         for index,(u,v) in enumerate(edgelist):
            i_u = index_of_node[u]
            i_v = index_of_node[v]
-           if XY0[index] >X0[i_u]*Y0[i_v] or YX0[index]>Y0[i_u]*X0[I_v] \
+           if XY0[index] >X0[i_u]*Y0[i_v] or YX0[index]>Y0[i_u]*X0[i_v] \
                                 or XX0[index]>X0[i_u]*X0[i_v]:
                raise EoN.EoNError("edge probabilities inconsistent with node \
                                 probabilities")
